@@ -169,6 +169,8 @@ def op_ages(desc, pr):
         kw = {} if pr.get("p", "default") == "default" else {"prec": kw["ultrametricity_precision"]}
     elif via == "Tree.pybus_harvey_gamma":
         kw = {}
+    elif via.startswith("coalescent.") and pr.get("p", "default") == "default":
+        kw = {}
     if force == "max":
         kw["is_force_max_age"] = True
     if force == "min":
@@ -204,6 +206,10 @@ def op_ages(desc, pr):
             r = call(t.pybus_harvey_gamma)
         else:
             r = call(t.pybus_harvey_gamma, _prec_kw(pr["p"])[0]["ultrametricity_precision"])
+    elif via.startswith("coalescent."):
+        from dendropy.model import coalescent
+        f = getattr(coalescent, via.split(".")[1])
+        r = call(f, t, 10, **kw) if via.endswith("log_probability_of_coalescent_tree") else call(f, t, **kw)
     else:
         raise KeyError(via)
     fails = []
@@ -532,6 +538,9 @@ def op_stat(desc, pr):
             return [(name + ".polytomy_error", "tree with a polytomy: documented TypeError required, got %r" % (_exc(r) if isinstance(r, _Raised) else r,))]
         return []
     want = _spec_stat(t0._seed_node, stat, norm)
+    if pr.get("first") is not None:
+        # the statistic is a function of the tree it is given: the same statistic taken on ANOTHER tree just before must not matter
+        _lib_stat(mk(pr["first"]), stat, norm, via)
     t = mk(desc)
     reorder(t, order)
     r = _lib_stat(t, stat, norm, via)
@@ -540,7 +549,7 @@ def op_stat(desc, pr):
     exact = stat in ("length",) or (stat in ("sackin", "colless") and norm in (False, None))
     ok = (r == want) if exact else A.close(r, want, rel=1e-9 if stat == "gamma" else 1e-12)
     if not ok:
-        clause = ".child_order" if order != "id" else ".definition"
+        clause = ".child_order" if order != "id" else (".definition_after_another_tree" if pr.get("first") is not None else ".definition")
         return [(name + clause, "%s(normalize=%r, via %s, children %s) = %r, definition gives %r" % (name, norm, via, order, r, want))]
     return []
 
@@ -768,7 +777,7 @@ def gen_items(ctx):
     ctx.scope(sc, "every shape <=%d leaves (+ unifurcation, <=%d leaves) x ultrametric {unit,dyadic} x every single non-root edge stretched by e (kept >= 0) x "
                   "(precision, e) in {0.25: +-0.125,+-0.25,+-0.375; default 1e-5: +-0.5e-5,+-2e-5; 0: +-2^-20; 2^-10: +-2^-10, +-(2^-10+2^-30)}; for each: "
                   "calc_node_ages(precision), one of node_ages/internal_node_ages/calc internal-only (rotating), restore, gamma (binary shapes; function / "
-                  "method alternating); for precision 0.25 and the +-2e-5 cases also: check disabled by None/False/-1 (rotating over the three routes) "
+                  "method alternating), the three coalescent.* functions taking a precision (binary shapes, rotating; verdict and stored ages only); for precision 0.25 and the +-2e-5 cases also: check disabled by None/False/-1 (rotating over the three routes) "
                   "and force max / min; verdicts: spread<=p must be accepted, specs.ages_stats.must_reject must raise UltrametricityError; "
                   "non-trivial = >=3 leaves" % (NP, UP), exhaustive=True)
     pshapes = _shapes(NP, UP)
@@ -798,6 +807,8 @@ def gen_items(ctx):
                             items.append((sc, "ages", d, dict(via="internal_node_ages", p=("None", "False", -1)[(rot + 2) % 3])))
                         if binary:
                             items.append((sc, "ages", d, dict(via=("pybus_harvey_gamma", "Tree.pybus_harvey_gamma")[(v + ei) % 2], p=p)))
+                            items.append((sc, "ages", d, dict(via="coalescent." + ("log_probability_of_coalescent_tree", "extract_coalescent_frames",
+                                                                                   "node_waiting_time_pairs")[(v + ei + ci) % 3], p=p)))
     # ---- random multi-edge perturbations
     sc = "ultrametricity@random"
     rng = rng_for(ctx, 17)
@@ -831,7 +842,13 @@ def gen_items(ctx):
     sc = "stats@shapes"
     ctx.scope(sc, "every shape <=%d leaves (+ unifurcation variants for N_bar/Sackin/B1) x {N_bar, B1, sackin_index x {True,False,None,yule,pda,default}, "
                   "colless_tree_imbalance x {max,True,False,None,yule,pda,default} (TypeError demanded on polytomies; max needs n>=3)} x "
-                  "{module function, Tree method} x child order {as built, reversed, rotated}; non-trivial = >=3 leaves" % N, exhaustive=True)
+                  "{module function, Tree method} x child order {as built, reversed, rotated}; each statistic x normalisation also right after the same call on a "
+                  "larger tree (caterpillar, %d leaves) and on a smaller one (3 leaves); non-trivial = >=3 leaves" % (N, N + 3), exhaustive=True)
+    cat = ()
+    for _ in range(N + 2):
+        cat = (cat, ()) if cat != () else ((), ())
+    BIGGER = desc_of(cat, None, True)            # a caterpillar with more leaves than any tree of the scope
+    SMALLER = desc_of(((), ((), ())), None, True)  # three leaves
     for si, s in enumerate(shapes):
         unif = any(len(n._child_nodes) == 1 for n in A.pre(mk(desc_of(s, None))._seed_node))
         d = desc_of(s, None, _rooted(si))
@@ -850,6 +867,11 @@ def gen_items(ctx):
                         if via == "method" and order == "rot":
                             continue
                         items.append((sc, "stat", d, dict(stat=stat, norm=norm, via=via, order=order)))
+                if nl >= 2 and not unif:
+                    # ... and right after the same statistic on a larger and on a smaller tree (a value kept from an earlier call must not leak)
+                    items.append((sc, "stat", d, dict(stat=stat, norm=norm, via="fn", order="id", first=BIGGER)))
+                    if nl >= 4:
+                        items.append((sc, "stat", d, dict(stat=stat, norm=norm, via="method", order="id", first=SMALLER)))
     sc = "stats@lengths"
     ctx.scope(sc, "every shape <=%d leaves (+ unifurcations) x Tree.length on {none, ones, ints, dyadic, onemissing, root edge set}; treeness on "
                   "{ones, dyadic, ints when total>0}; Pybus-Harvey gamma on every binary shape with >=3 leaves x ultrametric {unit,dyadic,zeros} "
